@@ -363,6 +363,9 @@ def oracles(rec):
 # ---------------------------------------------------------------------------------------
 # C09: the same script through the dynamic wrapper and through the typed methods
 
+PRELUDE_LIKE = {'C', 'S', 'T', 'Ok', 'Err', 'Some', 'None', 'Result', 'Option', 'Default', 'Debug', 'Box', 'Send', 'Sync',
+                'Copy', 'PhantomData', 'Self_', 'M'}
+
 def scn_pair(rng, info, d, n_ops=10):
     """(dynamic ops, typed ops): newdyn + handles / newtyped + the typed methods of the same events"""
     hooks = T.hooks_used(d)
@@ -665,8 +668,31 @@ def run(tier, seed, work, repo, suspects=None, strict_suspects=None):
                 units.append((f'{ci}_{names[k]}', g, errs_of(err, names[k])))
         if retry:
             names2, okk2, err2 = attempt([g for g, _ in retry], 'b')
+            still = []
             for k, (g, e1) in enumerate(retry):
                 units.append((f'{ci}_{names2[k]}', g, None if okk2[k] else errs_of(err2, names2[k])))
+                if not okk2[k]:
+                    still.append((k, g))
+            # a base that does not build although its neutrally renamed twin does: the harness is not the
+            # reason, the identifiers are — a well-formed definition that does not compile (C14)
+            tw = []
+            for k, g in still:
+                full = [gg for gg in glist if gg and gg[0] is g[0]]
+                twins = [x for x in (full[0] if full else []) if x.get('twin_kind') == 'ren']
+                if twins:
+                    tw.append((g, twins[:1]))
+            if tw:
+                names3, okk3, err3 = attempt([t for _, t in tw], 'c')
+                for k, (g, t) in enumerate(tw):
+                    # (not when the definition uses a prelude-like identifier: those clashes exist on the pinned
+                    #  tree, are allowed by C18 and lie outside C14's domain — DESIGN §8)
+                    def prelude_like(x):
+                        names = {st['name'] for st in x['info'].get('states', [])} | set(x['info'].get('superstates', []))
+                        return bool(names & PRELUDE_LIKE)
+                    if okk3[k] and all(x['info'].get('accepted', True) and not prelude_like(x) for x in g):
+                        for x in g:
+                            x['strict'] = True
+                            x['twin_builds'] = True
         return units
     with ThreadPoolExecutor(min(8, len(crates))) as ex:
         built = [u for us in ex.map(build, range(len(crates))) for u in us]
@@ -679,6 +705,7 @@ def run(tier, seed, work, repo, suspects=None, strict_suspects=None):
         if berr is not None:
             for x in uds:
                 result['compile_failures'].append({'dsl': x['text'], 'feature': x['feature'], 'prefix': D.to_prefix(x['def']),
+                                                   'note': ('its consistently renamed twin compiles' if x.get('twin_builds') else ''),
                                                    'stderr': berr[-2500:]})
             result['build_errors'].append({'crate': uname, 'stderr': berr[-3000:], 'definitions': [x['text'] for x in uds][:3]})
             continue
